@@ -217,7 +217,9 @@ func (t *TrafBox) OptimizeTfhdTrun() error {
 				break
 			}
 		}
-		if hasCommonSize {
+		// The trun decoder does not accept more than 1024 samples without any per-sample value,
+		// so the sample sizes are kept in that case.
+		if hasCommonSize && len(trun.Samples) <= 1024 {
 			// Set defaultSampleSize in tfhd and remove from trun
 			tfhd.Flags = tfhd.Flags | defaultSampleSizePresent
 			tfhd.DefaultSampleSize = commonSize
